@@ -5,7 +5,7 @@ class C16(FloorProp):
     id = 'C16'
     profile = 'c16'
     design_ref = 'DESIGN.md section 4 / C16'
-    budgets = {'quick': 8000, 'thorough': 300000}
+    budgets = {'quick': 20000, 'thorough': 400000}
 
 
 PROP = C16()
